@@ -32,24 +32,28 @@ SCHEMA_B = """
 schema { query: RootQ mutation: RootM subscription: RootS }
 enum Color { RED GREEN class None }
 enum Unused { X }
+enum Soft { type match case }
+enum OnlyVariable { P Q }
 scalar Date
 scalar Upload
 interface Ent { id: ID! }
 interface Animal implements Ent { id: ID! legs: Int }
 type Dog implements Ent & Animal { id: ID! legs: Int color: Color owner: Person }
 type Person implements Ent { id: ID! name: String pets(first: Int = 10): [Animal!]! born: Date }
-input Filter { and: [Filter!] or: [Filter!] not: Filter color: Color = RED name: String class: Int camelCase: [Int!] = [1] born: Date file: Upload }
+input Filter { and: [Filter!] or: [Filter!] not: Filter soft: Soft = type softs: [Soft!] = [match, case] color: Color = RED name: String class: Int camelCase: [Int!] = [1] born: Date file: Upload }
 input Unreferenced { x: Int inner: UnreferencedInner loop: Unreferenced }
 input UnreferencedInner { y: Int back: Unreferenced }
 type RootQ { find(f: Filter, limit: Int! = 5): [Ent!]! person(id: ID!): Person }
 type RootM { rename(id: ID!, name: String!, when: Date): Person upload(file: Upload!, files: [Upload!]): Boolean }
 type RootS { changed(color: Color): Dog! }
+extend type RootQ { last(only: OnlyVariable): Person }
 """
 B_OPS_NOSUB = [
     "query BFind($f: Filter, $limit: Int! = 5) { find(f: $f, limit: $limit) { id ... on Dog { color owner { name born } } ... on Person { pets(first: 2) { id legs } } } }",
     "mutation BRename($id: ID!, $name: String!, $when: Date) { rename(id: $id, name: $name, when: $when) { id name born } }",
     "mutation BUpload($file: Upload!, $files: [Upload!]) { upload(file: $file, files: $files) }",
     "query BPerson($id: ID!) { person(id: $id) { ...PersonBits } }\nfragment PersonBits on Person { id name pets { id } }",
+    "query BZLast($only: OnlyVariable) { last(only: $only) { id } }",
 ]
 B_SUB = "subscription BChanged($color: Color) { changed(color: $color) { id color } }"
 BOOLS = ["convert_to_snake_case", "async_client", "opentelemetry_client", "include_all_inputs", "include_all_enums", "enable_custom_operations"]
